@@ -283,6 +283,8 @@ async fn dial_happy_eyeballs(
             let addr = SocketAddr::new(ip, port);
             dials.push(
                 async move {
+                    #[cfg(feature = "verif-hooks")]
+                    use crate::verif_hooks::c15::TcpStream;
                     trace!("connecting TCP stream");
                     let stream = time::timeout(DIAL_ENDPOINT_TIMEOUT, TcpStream::connect(addr))
                         .await
@@ -347,6 +349,18 @@ async fn dial_happy_eyeballs(
             // Yields when the next dial attempt is due, if the timer is set.
             () = &mut next_dial_delayed_until, if next_dial_delayed_until.is_some() => {},
         }
+    }
+}
+
+#[cfg(feature = "verif-hooks")]
+impl crate::verif_hooks::c15::Dialer {
+    /// Verification accessor for the private [`dial_happy_eyeballs`].
+    pub async fn dial(
+        dns_resolver: &DnsResolver,
+        url: &Url,
+        prefer_ipv6: bool,
+    ) -> Result<TcpStream, DialError> {
+        dial_happy_eyeballs(dns_resolver, url, prefer_ipv6).await
     }
 }
 
